@@ -51,6 +51,10 @@ class Port(Device, OutMixIn):
             if self.rate > 0:
                 yield env.timeout(packet.size * 8 / self.rate)
             self.byte_size -= packet.size
+            if not self.store.items:
+                # nothing is held any more: drop the rounding residue that a
+                # history of non-integral sizes leaves in the running sum
+                self.byte_size = 0
             if self.out:
                 self.out.put(packet)
 
